@@ -31,7 +31,7 @@ CHECKS.update({
         ref="DESIGN.md §3 C10"),
     "C11": dict(
         technique="runtime monitoring: differential of path evaluation (API and SPARQL) against a set-algebra reference over pairs; step budget on cyclic data; exhaustive small scope",
-        text="Exploration. Generated path expressions to depth 4 (inverse, sequences of 2-4 steps, alternatives, * + ?, negated property sets, nested closures) on graphs of 1-10 triples with cycles, self-loops and literal objects incl. falsy ones are evaluated for all four bound/unbound combinations of the ends (ends from graph nodes, falsy literals, terms absent from the graph) through Graph.triples / subjects / objects and through SPARQL SELECT; the result set must equal the relation computed by structural recursion over a plain set of pairs (composition, union, converse, fixpoint closures, zero-length pairs over nodes(G) plus the bound ends); a top-level closure must be duplicate-free; every evaluation runs under a logical step budget. Exhaustive lane: 50+ path shapes of depth<=2 over every small graph on {a, b, 0}. One listed finding (negated set with an inverse member) is carved out.",
+        text="Exploration. Generated path expressions to depth 4 (inverse, sequences of 2-4 steps, alternatives, * + ?, negated property sets, nested closures) on graphs of 1-10 triples with cycles, self-loops and literal objects incl. falsy ones are evaluated for all four bound/unbound combinations of the ends (ends from graph nodes, falsy literals, terms absent from the graph) through Graph.triples / subjects / objects and through SPARQL SELECT; the result set must equal the relation computed by structural recursion over a plain set of pairs (composition, union, converse, fixpoint closures, zero-length pairs over nodes(G) plus the bound ends); a top-level closure must be duplicate-free; every evaluation runs under a logical step budget. Exhaustive lane: 50+ path shapes of depth<=2 over every small graph on {a, b, 0}. One listed finding (negated set with an inverse member) is carved out. The same pattern is also evaluated on a ReadOnlyGraphAggregate over a partition of the triples, and after larger paths have been built from the path object with / | ~ * (operators must not change their operands).",
         note="SPARQL lane does not write blank nodes or literal subjects as constants.",
         ref="DESIGN.md §3 C11"),
     "C12": dict(
@@ -107,7 +107,7 @@ CHECKS.update({
     "C20": dict(
         technique="runtime monitoring: client-side call history plus server-side request log over a loopback SPARQL endpoint owned by the check; model of the endpoint's dataset; exactly-once/in-order transaction checker",
         text="Exploration. The check starts an http.server endpoint on 127.0.0.1 that implements the SPARQL 1.1 Protocol (GET, POST direct, POST form, default-graph-uri, XML/JSON negotiation) over a backing Dataset it can read directly, and drives Graph/ConjunctiveGraph on SPARQLUpdateStore through generated histories of add, addN, remove with every pattern shape, remove_graph, update(), len, membership, triples() for all eight shapes, contexts(), query(), commit and rollback, for every combination of method x result format x autocommit x dirty_reads x named/default graph, with literals carrying quotes, newlines, backslashes, tabs, non-ASCII, language tags, datatypes and falsy values. Oracles: every read equals what a name->set model says the endpoint holds; the backing dataset equals the model after every call and a second graph at the endpoint is never touched; with autocommit off no update request is logged before commit() (or before the next non-dirty read), a commit with queued edits logs exactly one request whose effect is the edits in order, a commit with nothing queued logs none, and rollback logs none and discards exactly the uncommitted edits.",
-        note="The endpoint answers with rdflib's own engine (cross-checked by C04/C10). Blank nodes are not sent. One listed finding (CR through XML results) is carved out.",
+        note="The endpoint answers with rdflib's own engine (cross-checked by C04/C10). Blank nodes are not sent. Stores are also built with caller params/headers, and addN batches span two graphs.",
         ref="DESIGN.md §3 C20"),
 })
 
